@@ -105,7 +105,7 @@ def run_units(ctx, n):
     from pyab_experiment.experiment_evaluator import ExperimentEvaluator
     rng = ctx.rng
     for _ in range(n):
-        salt = rng.choice(["", "s1", "ramp"])
+        salt = rng.choice(["", "s1", "ramp", None])
         vectors = [choicelib.weight_vector(rng, rng.choice(["int-small", "two", "mixed", "equal"])) for _ in range(5)]
         n0 = rng.choice([2, 3, 4])
         vectors.append(["1"] * n0)          # an even split next to uneven ones
@@ -116,8 +116,8 @@ def run_units(ctx, n):
             lab = (lambda i: i % 2) if repeat else (lambda i: i)
             groups = ", ".join('"g%d" weighted %s' % (lab(i), w) for i, w in enumerate(ws))
             # the same weights on two branches with different labels: the branch must not matter
-            text = ('def e { salt: "%s" splitters: uid if tier == 1 { return %s } else { return %s } }'
-                    % (salt, groups, groups.replace('"g', '"h')))
+            text = ('def e { %s splitters: uid if tier == 1 { return %s } else { return %s } }'
+                    % ('salt: "%s"' % salt if salt is not None else "", groups, groups.replace('"g', '"h')))
             evs.append((ws, ExperimentEvaluator(text)))
         for _ in range(6):
             uid = rng.choice([rng.randrange(10 ** 9), "user_%d" % rng.randrange(10 ** 6)])
@@ -134,6 +134,37 @@ def run_units(ctx, n):
                                       {"salt": salt, "uid": common.enc_val(uid), "weights": ws, "tier": tier, "impl": out, "h": h})
 
 
+def run_compiled_pairs(ctx, n):
+    """ordered pairs through COMPILED experiments with the position substituted (no salt, uid = h: key = str(h))"""
+    from pyab_experiment.experiment_evaluator import ExperimentEvaluator
+    rng = ctx.rng
+    pairs = [ordered_pair(rng) for _ in range(n)]
+    pairs[:0] = [(["1", "1", "1"], ["33334", "33338", "33328"]), (["1", "9"], ["2", "8"]), (["10", "45", "45"], ["20", "40", "40"])]
+    with choicelib.SubstitutedPosition():
+        for w, w2 in pairs:
+            evs = []
+            for ws in (w, w2):
+                groups = ", ".join('"g%d" weighted %s' % (i, x) for i, x in enumerate(ws))
+                evs.append(ExperimentEvaluator("def e { splitters: uid return %s }" % groups))
+            hs = sorted(set(choicelib.boundary_positions(w, rng, 2)) | set(choicelib.boundary_positions(w2, rng, 2)))
+            for h in hs:
+                outs = [common.outcome_of(lambda: ev(uid=h)) for ev in evs]
+                ctx.case(("compiled-pair", tuple(w), tuple(w2), h), True)
+                ctx.count("compiled-pair")
+                idx = []
+                for ws, o in zip((w, w2), outs):
+                    exact, allowed = gen.spec_indices(ws, h)
+                    if "g" not in o or o["g"].get("s") not in {"g%d" % i for i in allowed}:
+                        ctx.violation(f"compiled experiment with weights {ws} at position {h}/2^32 returns {json.dumps(o)}, expected g{exact}",
+                                      {"weights": ws, "h": h, "impl": o, "expected": exact})
+                        idx = None
+                        break
+                    idx.append(int(o["g"]["s"][1:]))
+                if idx and idx[1] > idx[0] and all("." not in x for x in w + w2):
+                    ctx.violation(f"compiled: unit at position {h}/2^32 moves from group {idx[0]} to later group {idx[1]} when weights change {w} -> {w2}",
+                                  {"old": w, "new": w2, "h": h})
+
+
 def run(ctx):
     n = N[ctx.tier]
     if ctx.obligation_breaks or ctx.tie_breaks:
@@ -142,6 +173,7 @@ def run(ctx):
                          "positions at and around every boundary of both vectors plus random, position substituted; and real unit ids "
                          "through compiled experiments differing only in weights / labels / branch")
     run_pairs(ctx, n)
+    run_compiled_pairs(ctx, max(20, n // 10))
     run_units(ctx, max(10, n // 15))
 
 
